@@ -18,7 +18,17 @@
  *   ps <payloadhex>       await(waiter, tag) + push(payload): the outgoing request stays open (message in progress)
  *   pe                    push(0, 0): finish the outgoing message
  *   sy                    sync(timeout 0)
- *   cl                    release the object (last reference): mpt_connection_fini
+ *   cl                    release one reference of the object (the last one: mpt_connection_fini)
+ *   rf                    one more reference (remoteRef)
+ *   a0 <payloadhex>       like aw, but await(NULL, 0): the answer goes to the default handler of mpt_command_reserve (log_reply)
+ *   no                    next(POLLOUT)            nh   next(POLLHUP)
+ *   cv <in|fmt|meta|sock|obj|out|log|bad>   convert() of the object (remoteConv)
+ *   gp <name|->           property(name) through the object interface (remoteProperty / mpt_connection_get)
+ *   lg <type> <texthex>   mpt_log(logger interface of the object, "hs", type, "%s", text): remoteLog / mpt_output_vlog
+ *   as <d|a|x>            mpt_connection_assign on the open connection: new datagram socketpair / new stream socketpair / NULL
+ *   sp <d|a|x|D|S>        the same through the object interface: set_property("", socket | NULL | target string unix:/Unix:)
+ *   op <d|s>              mpt_connection_open("unix:<path>" datagram / "Unix:<path>" stream) on the open connection
+ *   an answer whose payload starts with ff makes the harness' waiter return -3
  *
  * Token per operation:  <ret>|<waiter calls>|<wire>|<ctx>|<handles>|<wait>
  *   ret      op specific (see below)
@@ -28,6 +38,12 @@
  *   handles  per deferred handle: armed id, x consumed
  *   wait     <cid>:<id>=<tag>,...   entries of the wait table in table order (tag . = slot not in use; mechanism detail)
  */
+/* the library's default logger prints messages of type 0 to stdout (log_reply does for an Output answer):
+ * the case output goes to a duplicate of descriptor 1, descriptor 1 itself is pointed to stderr */
+#include <stdio.h>
+static FILE *vh_out;
+#undef stdout
+#define stdout vh_out
 #include "common.h"
 #include <errno.h>
 #include <stddef.h>
@@ -121,7 +137,7 @@ static int waiter(void *arg, const MPT_STRUCT(message) *msg)
 		if (!n) wlen += snprintf(wcalls + wlen, sizeof(wcalls) - wlen, "-");
 		for (i = 0; i < n && wlen < sizeof(wcalls) - 8; i++) wlen += snprintf(wcalls + wlen, sizeof(wcalls) - wlen, "%02x", buf[i]);
 	}
-	return 0;
+	return (msg && n && buf[0] == 0xff) ? -3 : 0;
 }
 
 static MPT_STRUCT(message) mkmsg_store;
@@ -199,6 +215,7 @@ static void wire(void)
 	static uint8_t dec[140000];
 	ssize_t got;
 	int first = 1;
+	if (sv[1] < 0) { vh_add("-"); return; }
 	if (dgram) {
 		while ((got = recv(sv[1], wbuf, sizeof(wbuf), 0)) >= 0) {
 			if (!first) vh_add(";");
@@ -257,7 +274,7 @@ static void state(void)
 			int f = 1;
 			for (k = 0; k < n; k++) {
 				if (!c[k].cmd) vh_add("%s%llx=.", f ? "" : ",", (unsigned long long) c[k].id);
-				else vh_add("%s%llx=%d", f ? "" : ",", (unsigned long long) c[k].id, c[k].cmd == (int (*)()) waiter ? (int) (intptr_t) c[k].arg : -1);
+				else vh_add("%s%llx=%d", f ? "" : ",", (unsigned long long) c[k].id, c[k].cmd == (int (*)()) waiter ? (int) (intptr_t) c[k].arg : 0);
 				f = 0;
 			}
 			if (f) vh_add("-");
@@ -265,9 +282,95 @@ static void state(void)
 	}
 }
 
+
+/* a convertable that hands out a socket descriptor or a target string (what mpt_connection_set expects) */
+struct srcval { MPT_INTERFACE(convertable) _conv; int fd; const char *str; };
+static int srcval_conv(MPT_INTERFACE(convertable) *c, MPT_TYPE(type) type, void *ptr)
+{
+	struct srcval *v = (void *) c;
+	if (type == MPT_ENUM(TypeUnixSocket) && v->fd >= 0) { if (ptr) *((int *) ptr) = v->fd; return MPT_ENUM(TypeUnixSocket); }
+	if (type == 's' && v->fd < 0) { if (ptr) *((const char **) ptr) = v->str; return 's'; }
+	return MPT_ERROR(BadType);
+}
+static const MPT_INTERFACE_VPTR(convertable) srcval_vptr = { srcval_conv };
+
+static int own0;   /* sv[0] is a descriptor of the harness (socketpair), not the library's */
+/* give the connection a (new) backend.  kind: d / a = socketpair (datagram / stream) through mpt_connection_assign,
+ * S / D = mpt_connection_open("Unix:<path>" stream / "unix:<path>" datagram) to a socket of the harness, x = assign(NULL);
+ * how: 0 = the connection functions, 1 = set_property("", value) of the object interface.
+ * the old peer end is drained into oldwire and closed. */
+static char oldwire[4096];
+static const char *attach(int kind, int how, int *ret)
+{
+	int nsv[2] = { -1, -1 }, nown = 0, ar, osv1 = sv[1], osv0 = own0 ? sv[0] : -1;
+	struct srcval src = { { &srcval_vptr }, -1, 0 };
+	if (kind == 'S' || kind == 'D') {
+		struct sockaddr_un un;
+		static char target[sizeof(un.sun_path) + 8];
+		int ls;
+		memset(&un, 0, sizeof(un));
+		un.sun_family = AF_UNIX;
+		snprintf(un.sun_path, sizeof(un.sun_path), "/tmp/c12conn_%ld.sock", (long) getpid());
+		unlink(un.sun_path);
+		if ((ls = socket(AF_UNIX, kind == 'S' ? SOCK_STREAM : SOCK_DGRAM, 0)) < 0 || bind(ls, (struct sockaddr *) &un, sizeof(un)) < 0) return "bind";
+		if (kind == 'S' && listen(ls, 1) < 0) return "listen";
+		snprintf(target, sizeof(target), "%s:%s", kind == 'S' ? "Unix" : "unix", un.sun_path);
+		src.str = target;
+		ar = how ? od->_obj._vptr->set_property(&od->_obj, "", &src._conv) : mpt_connection_open(&od->con, target, 0);
+		if (ar >= 0) nsv[1] = kind == 'S' ? accept(ls, 0, 0) : ls;
+		if (kind == 'S' || ar < 0) close(ls);
+		unlink(un.sun_path);
+		*ret = ar;
+		if (ar < 0) return "open";
+		if (nsv[1] < 0) return "accept";
+		if (kind == 'S') {
+			if (MPT_socket_active(&od->con.out.sock) || !od->con.out.buf._buf) return "open-backend";
+			nsv[0] = _mpt_stream_fread(&((MPT_STRUCT(stream) *) od->con.out.buf._buf)->_info);    /* only polled by the harness */
+		} else {
+			if (!MPT_socket_active(&od->con.out.sock)) return "open-backend";
+			nsv[0] = od->con.out.sock._id;
+		}
+	}
+	else if (kind == 'x') {
+		ar = how ? od->_obj._vptr->set_property(&od->_obj, "", &src._conv) : mpt_connection_assign(&od->con, 0);
+		*ret = ar;
+		if (ar < 0) return "assign";
+	}
+	else {
+		MPT_STRUCT(socket) sock;
+		if (socketpair(AF_UNIX, kind == 'd' ? SOCK_DGRAM : SOCK_STREAM, 0, nsv) < 0) return "socketpair";
+		sock._id = src.fd = nsv[0];
+		ar = how ? od->_obj._vptr->set_property(&od->_obj, "", &src._conv) : mpt_connection_assign(&od->con, &sock);
+		*ret = ar;
+		if (ar < 0) { close(nsv[0]); close(nsv[1]); return "assign"; }
+		nown = 1;
+	}
+	/* what the old peer still got */
+	oldwire[0] = 0;
+	if (osv1 >= 0) {
+		uint8_t b[1024];
+		ssize_t got;
+		size_t o = 0, i;
+		while ((got = recv(osv1, b, sizeof(b), MSG_DONTWAIT)) > 0 && o < sizeof(oldwire) - 2 * sizeof(b) - 2) {
+			for (i = 0; i < (size_t) got; i++) o += snprintf(oldwire + o, sizeof(oldwire) - o, "%02x", b[i]);
+			oldwire[o++] = ';'; oldwire[o] = 0;
+		}
+		close(osv1);
+	}
+	if (osv0 >= 0) close(osv0);
+	sv[0] = nsv[0]; sv[1] = nsv[1]; own0 = nown; wtot = 0;
+	if (sv[1] >= 0) fcntl(sv[1], F_SETFL, O_NONBLOCK);
+	return 0;
+}
+
+static int open_stream(void)
+{
+	return !closed && !MPT_socket_active(&od->con.out.sock) && od->con.out.buf._buf;
+}
 static int readable(void)
 {
 	struct pollfd p;
+	if (sv[0] < 0) return 0;
 	p.fd = sv[0];
 	p.events = POLLIN;
 	p.revents = 0;
@@ -276,41 +379,19 @@ static int readable(void)
 static void run_con(int ntok, char **tok)
 {
 	int t = 4;
-	MPT_STRUCT(socket) sock;
-	int ar;
+	int ar, refs = 1;
 	dgram = tok[2][0] == 'd';
+	sv[0] = sv[1] = -1; own0 = 0;
 	idlen = vh_int(tok[3]);
 	if (!(in = mpt_output_remote())) { vh_tok("?create"); return; }
 	od = MPT_baseaddr(out_data, in, _in);
 	out = &od->_out;
-	if (tok[2][0] == 's') {
-		/* stream backend the way a client gets it: mpt_connection_open("Unix:<path>") to a listening socket of the peer */
-		struct sockaddr_un un;
-		char target[sizeof(un.sun_path) + 8];
-		int ls;
-		memset(&un, 0, sizeof(un));
-		un.sun_family = AF_UNIX;
-		snprintf(un.sun_path, sizeof(un.sun_path), "/tmp/c12conn_%ld.sock", (long) getpid());
-		unlink(un.sun_path);
-		if ((ls = socket(AF_UNIX, SOCK_STREAM, 0)) < 0 || bind(ls, (struct sockaddr *) &un, sizeof(un)) < 0 || listen(ls, 1) < 0) { vh_tok("?listen"); return; }
-		snprintf(target, sizeof(target), "Unix:%s", un.sun_path);
-		ar = mpt_connection_open(&od->con, target, 0);
-		sv[1] = ar < 0 ? -1 : accept(ls, 0, 0);
-		close(ls);
-		unlink(un.sun_path);
-		if (ar < 0 || sv[1] < 0) { vh_tok("?open%d", ar); return; }
-		if (MPT_socket_active(&od->con.out.sock) || !od->con.out.buf._buf) { vh_tok("?open-backend"); return; }
-		sv[0] = _mpt_stream_fread(&((MPT_STRUCT(stream) *) od->con.out.buf._buf)->_info);    /* only polled by the harness */
-	} else {
-		/* a connected socket handed over: mpt_connection_assign (dups the descriptor);
-		 * 'a' = stream socket, then the default encoding (COBS) through the "encoding" property */
-		if (socketpair(AF_UNIX, dgram ? SOCK_DGRAM : SOCK_STREAM, 0, sv) < 0) { vh_tok("?socketpair"); return; }
-		sock._id = sv[0];
-		if ((ar = mpt_connection_assign(&od->con, &sock)) < 0) { vh_tok("?assign%d", ar); return; }
-		if (dgram ? !MPT_socket_active(&od->con.out.sock) : (MPT_socket_active(&od->con.out.sock) || !od->con.out.buf._buf)) { vh_tok("?assign-backend"); return; }
-		if (!dgram && (ar = mpt_connection_set(&od->con, "encoding", 0)) < 0) { vh_tok("?encoding%d", ar); return; }
+	{
+		const char *e = attach(tok[2][0] == 's' ? 'S' : tok[2][0], 0, &ar);
+		if (e) { vh_tok("?%s%d", e, ar); return; }
+		if (dgram ? !MPT_socket_active(&od->con.out.sock) : (MPT_socket_active(&od->con.out.sock) || !od->con.out.buf._buf)) { vh_tok("?backend"); return; }
+		if (tok[2][0] == 'a' && (ar = od->_obj._vptr->set_property(&od->_obj, "encoding", 0)) < 0) { vh_tok("?encoding%d", ar); return; }
 	}
-	fcntl(sv[1], F_SETFL, O_NONBLOCK);
 	/* the only place an id width comes from (examples/io/mclient.c does the same) */
 	od->con.out._idlen = idlen;
 	nh = 0; ntag = 0; closed = 0; wtot = 0;
@@ -333,20 +414,21 @@ static void run_con(int ntok, char **tok)
 		}
 		else if (!strcmp(op, "dp") || !strcmp(op, "dp0")) {
 			struct handler h;
-			int rn, rd;
+			int rn, rd, st;
 			memset(&h, 0, sizeof(h));
 			if (op[2]) { h.acts = "-"; }
 			else { h.acts = tok[t++]; h.code = vh_int(tok[t++]); }
 			/* what the notifier does: next(POLLIN) while the descriptor is readable (datagram: once) */
 			rn = -99;
-			if (dgram) { if (readable()) rn = in->_vptr->next(in, POLLIN); }
+			st = open_stream();
+			if (!st) { if (readable()) rn = in->_vptr->next(in, POLLIN); }
 			else { int k = 0; while (readable() && k++ < 256) rn = in->_vptr->next(in, POLLIN); }
 			rd = in->_vptr->dispatch(in, op[2] ? 0 : handle, &h);
-			if (!dgram) in->_vptr->next(in, POLLOUT);
+			if (st) in->_vptr->next(in, POLLOUT);
 			/* "no message": MissingData when the read queue is empty, 0 when it holds consumed bytes only
 			 * (state of the ring, subject of C02): one observation here */
-			if (!dgram && rd == MPT_ERROR(MissingData) && !h.called) rd = 0;
-			if (!dgram) vh_tok("n*");
+			if (st && rd == MPT_ERROR(MissingData) && !h.called) rd = 0;
+			if (st) vh_tok("n*");
 			else if (rn == -99) vh_tok("n-");
 			else vh_tok("n%d", rn);
 			vh_add(":d%d:%s:%s", rd, h.called ? h.seen : "-", h.res[0] ? h.res : "-");
@@ -358,18 +440,18 @@ static void run_con(int ntok, char **tok)
 			if (k < 0 || k >= nh || !vh_live(hd[k])) vh_tok("X");
 			else {
 				vh_tok("i%d", hd[k]->_vptr->reply(hd[k], m));
-				if (!dgram && !closed) in->_vptr->next(in, POLLOUT);
+				if (open_stream()) in->_vptr->next(in, POLLOUT);
 			}
 			free(keep);
 		}
-		else if (!strcmp(op, "aw")) {
+		else if (!strcmp(op, "aw") || !strcmp(op, "a0")) {
 			size_t n;
 			uint8_t *pay = vh_unhex(tok[t++], &n);
-			int ra = out->_vptr->await(out, waiter, (void *) (intptr_t) ++ntag);
+			int ra = op[1] == '0' ? out->_vptr->await(out, 0, 0) : out->_vptr->await(out, waiter, (void *) (intptr_t) ++ntag);
 			unsigned cid = od->con.cid;
 			long p1 = n ? out->_vptr->push(out, n, pay) : 0;
 			long p2 = out->_vptr->push(out, 0, 0);
-			if (!dgram) in->_vptr->next(in, POLLOUT);
+			if (open_stream()) in->_vptr->next(in, POLLOUT);
 			vh_tok("a%d:%x:%ld:%ld", ra, cid, p1, p2);
 			free(pay);
 		}
@@ -379,13 +461,13 @@ static void run_con(int ntok, char **tok)
 			int ra = out->_vptr->await(out, waiter, (void *) (intptr_t) ++ntag);
 			unsigned cid = od->con.cid;
 			long p1 = out->_vptr->push(out, n, pay);
-			if (!dgram) in->_vptr->next(in, POLLOUT);
+			if (open_stream()) in->_vptr->next(in, POLLOUT);
 			vh_tok("a%d:%x:%ld", ra, cid, p1);
 			free(pay);
 		}
 		else if (!strcmp(op, "pe")) {
 			long p2 = out->_vptr->push(out, 0, 0);
-			if (!dgram) in->_vptr->next(in, POLLOUT);
+			if (open_stream()) in->_vptr->next(in, POLLOUT);
 			vh_tok("e%ld", p2);
 		}
 		else if (!strcmp(op, "sy")) {
@@ -393,19 +475,94 @@ static void run_con(int ntok, char **tok)
 		}
 		else if (!strcmp(op, "cl")) {
 			in->_vptr->meta.unref((void *) in);
-			closed = 1;
+			if (!--refs) closed = 1;
 			vh_tok("c");
+		}
+		else if (!strcmp(op, "rf")) {
+			uintptr_t r = in->_vptr->meta.addref((void *) in);
+			if (r) refs++;
+			vh_tok("r%d", (int) r);
+		}
+		else if (!strcmp(op, "no") || !strcmp(op, "nh")) {
+			/* an open stream: mpt_stream_poll (value not compared) */
+			int st = open_stream(), r = in->_vptr->next(in, op[1] == 'o' ? POLLOUT : POLLHUP);
+			if (st) vh_tok("x*"); else vh_tok("x%d", r);
+		}
+		else if (!strcmp(op, "cv")) {
+			const char *w = tok[t++];
+			const MPT_STRUCT(named_traits) *tr = mpt_input_type_traits();
+			int me = tr ? (int) tr->type : (int) MPT_ENUM(TypeMetaPtr);
+			int ty = !strcmp(w, "in") ? me : !strcmp(w, "fmt") ? 0 : !strcmp(w, "meta") ? MPT_ENUM(TypeMetaPtr)
+			       : !strcmp(w, "sock") ? MPT_ENUM(TypeUnixSocket) : !strcmp(w, "obj") ? MPT_ENUM(TypeObjectPtr)
+			       : !strcmp(w, "out") ? MPT_ENUM(TypeOutputPtr) : !strcmp(w, "log") ? MPT_ENUM(TypeLoggerPtr) : 'd';
+			union { void *p; int fd; const uint8_t *fmt; } u;
+			int r;
+			const char *part = "other";
+			memset(&u, 0, sizeof(u));
+			u.fd = -77;
+			if (ty != MPT_ENUM(TypeUnixSocket)) u.p = 0;
+			r = in->_vptr->meta.convertable.convert((void *) in, ty, &u);
+			if (ty == MPT_ENUM(TypeUnixSocket)) part = u.fd == -77 ? "none" : u.fd < 0 ? "nofd" : u.fd == sv[0] || !own0 ? "fd" : "fd";
+			else if (!u.p) part = "none";
+			else if (u.p == (void *) &od->_in) part = "in";
+			else if (u.p == (void *) &od->_obj) part = "obj";
+			else if (u.p == (void *) &od->_out) part = "out";
+			else if (u.p == (void *) &od->_log) part = "log";
+			else if (!ty && u.fmt[0] == MPT_ENUM(TypeObjectPtr) && u.fmt[1] == MPT_ENUM(TypeOutputPtr) && u.fmt[2] == MPT_ENUM(TypeLoggerPtr) && !u.fmt[3]) part = "fmt";
+			vh_tok("v%s:%s", r == me ? "me" : r == MPT_ENUM(TypeUnixSocket) ? "sock" : r < 0 ? "err" : "other", part);
+			if (r < 0) vh_add("%d", r);
+		}
+		else if (!strcmp(op, "gp")) {
+			const char *w = tok[t++];
+			MPT_STRUCT(property) pr;
+			int r;
+			memset(&pr, 0, sizeof(pr));
+			pr.name = !strcmp(w, "-") ? "" : w;
+			r = od->_obj._vptr->property(&od->_obj, &pr);
+			vh_tok("p%d:%s", r, r >= 0 && pr.name ? pr.name : "-");
+		}
+		else if (!strcmp(op, "lg")) {
+			int ty = vh_int(tok[t++]), r;
+			size_t n;
+			uint8_t *b = vh_unhex(tok[t++], &n);
+			char *txt = malloc(n + 1);
+			memcpy(txt, b, n); txt[n] = 0;
+			r = mpt_log(&od->_log, "hs", ty, "%s", txt);
+			if (open_stream()) in->_vptr->next(in, POLLOUT);
+			vh_tok("l%d", r);
+			free(txt); free(b);
+		}
+		else if (!strcmp(op, "as") || !strcmp(op, "sp") || !strcmp(op, "op")) {
+			int kind = tok[t++][0], r = 0;
+			const char *e;
+			if (op[0] == 'o') kind = kind == 's' ? 'S' : 'D';
+			e = attach(kind, op[0] == 's', &r);
+			if (!e) {
+				if (kind != 'x') dgram = kind == 'd' || kind == 'D';
+				/* a stream handed over as descriptor has no codec yet */
+				if (kind == 'a' && od->con.out.buf._buf && !((MPT_STRUCT(stream) *) od->con.out.buf._buf)->_rd._dec) {
+					int er = od->_obj._vptr->set_property(&od->_obj, "encoding", 0);
+					if (er < 0) vh_tok("?encoding%d", er);
+				}
+			}
+			vh_tok("g%d", r);
+			if (!e && oldwire[0]) vh_add(":old=%s", oldwire);
 		}
 		else { vh_tok("?%s", op); break; }
 		state();
 	}
-	if (!closed) in->_vptr->meta.unref((void *) in);
-	close(sv[1]);
-	if (tok[2][0] != 's') close(sv[0]);
+	while (!closed && refs-- > 0) in->_vptr->meta.unref((void *) in);
+	if (sv[1] >= 0) close(sv[1]);
+	if (own0 && sv[0] >= 0) close(sv[0]);
 }
 static void run_case(int ntok, char **tok)
 {
 	if (ntok >= 4 && !strcmp(tok[1], "con")) run_con(ntok, tok);
 	else vh_tok("?case");
 }
-int main(int argc, char **argv) { return vh_main(argc, argv, run_case); }
+int main(int argc, char **argv)
+{
+	vh_out = fdopen(dup(1), "w");
+	dup2(2, 1);
+	return vh_main(argc, argv, run_case);
+}
